@@ -5,8 +5,8 @@ from .core import *
 
 class Obl:
     """one proof obligation: under path condition, `bad` (a z3 Bool or python bool) must be unsatisfiable"""
-    __slots__ = ('locus', 'bad', 'detail')
-    def __init__(s, locus, bad, detail=''): s.locus = locus; s.bad = bad; s.detail = detail
+    __slots__ = ('locus', 'bad', 'detail', 'cls')
+    def __init__(s, locus, bad, detail='', cls='value'): s.locus = locus; s.bad = bad; s.detail = detail; s.cls = cls
 
 def _w(v):
     return v.size() if not is_c(v) and not z3.is_bool(v) else None
